@@ -391,7 +391,7 @@ def arrange(sp, rng, variant):
         anchor = root if (g == 0 or rng.random() < 0.7) else d
         if (d, anchor) not in groups:
             groups.append((d, anchor))
-    dirs, anchor_of = {main: MAIN_DIRS[(variant // 8) % len(MAIN_DIRS)]}, {}
+    dirs, anchor_of = {main: MAIN_DIRS[(variant // 2) % len(MAIN_DIRS)]}, {}
     for k, p in enumerate(others):
         d, anchor = groups[rng.randrange(len(groups))]
         dirs[p], anchor_of[p] = d, anchor
@@ -429,7 +429,8 @@ def arrange(sp, rng, variant):
             c = os.path.normpath(os.path.join(d, ref))
             if not c.startswith("..") and c not in files and (c, np(q)) not in cands:
                 cands.append((c, np(q)))
-    decoys = {c: q for c, q in cands if rng.random() < 0.85}
+    density = (0.85, 0.0, 0.85, 0.4)[(variant // 8) % 4]      # every fourth block of layouts has no decoys at all
+    decoys = {c: q for c, q in cands if rng.random() < density}
     while True:
         existing = set(files) | set(decoys)
         hit = set()
@@ -962,10 +963,12 @@ def main():
     # include errors injected into real splits (frontends.mutate_fileset: missing / self / mutual / ring)
     wanted = ("includes a missing file", "includes itself", "include each other", "include ring")
     mrng = random.Random(chk.seed + 5)
+    holders = {}
     for c in cases[:: max(1, len(cases) // (24 if quick else 200))]:
         for _ in range(30):
             files, desc = F.mutate_fileset(c["files"], c["main"], mrng, kind=c["lang"])
             if any(w in desc for w in wanted):
+                holders["%s (%s)" % (desc, c["label"])] = [p for p in files if c["files"].get(p) != files[p]]
                 ecs.append(("%s (%s)" % (desc, c["label"]), c["lang"], files, c["main"], c["include_dirs"], "fail-if-reachable"))
                 break
 
@@ -977,7 +980,9 @@ def main():
                 # the defect may be out of the main file's reach: compile every file, at least one must be refused
                 label, lang, files, main, include_dirs, _ = ec
                 worst = None
-                for p in sorted(files):
+                # the files that hold the injected include first: a file that does not reach the defect compiles silently,
+                # and rightly so; the reported verdict is that of a file that holds it
+                for p in sorted(files, key=lambda p: (p not in holders.get(label, ()), p)):
                     fails, outcome = run_error_case((label, lang, files, p, include_dirs, "fail"), os.path.join(d, stem(p)))
                     if not fails:
                         return [], "refused"
